@@ -15,6 +15,11 @@ def main():
         mod.run(ctx)
         ctx.dump("ok")
     except BaseException as e:  # noqa
+        from vf.ctx import StopWorkload
+        if isinstance(e, StopWorkload):
+            ctx.count("stopped_early_enough_witnesses")
+            ctx.dump("ok")
+            return
         ctx.dump("error", "".join(traceback.format_exception(type(e), e, e.__traceback__))[-4000:])
         raise
 
